@@ -303,6 +303,8 @@ class Calls(Interp):
                 return SV(so.strv(cv.ext.split(".")[-1]), "str")
             if attr in ("__repr__", "__str__"):
                 return BuiltinV("repr")          # BaseException.__repr__ etc.: a total text function
+            if attr == "__init__" and (cv.ext.split(".")[-1] in EXC_BASES or cv.ext in ("BaseException",)):
+                return BuiltinV("exc_init")      # Exception.__init__(self, *args): sets self.args
             self.unsupported(node, "attribute of external class")
         ci = cv.info
         if attr == "__name__":
@@ -331,6 +333,9 @@ class Calls(Interp):
             return self.global_value(r, attr, node)
         if mv.name == "sys" and attr == "exc_info":
             return BuiltinV("sys.exc_info")
+        lv = self.reg.lib_values.get(mv.name + "." + attr)
+        if lv is not None:
+            return self.const(lv)          # a library constant whose value the spec fixes (e.g. signal numbers)
         return ExtV(mv.name + "." + attr)
 
     def set_attr(self, obj, attr, v, node):
@@ -966,6 +971,11 @@ class Calls(Interp):
         return None
 
     def bi_getattr(self, args, kwargs, node):
+        if isinstance(args[0], ModuleV) and isinstance(args[1], SV):
+            nm = z3.simplify(Val.s(args[1].term))
+            if z3.is_string_value(nm):
+                # getattr(module, "NAME", default) with a name known on this path (library constants fixed by the spec exist)
+                return self.module_attr(args[0], nm.as_string(), node)
         dyn = self.dyn_attr_name(args[1])
         if dyn is not None and isinstance(args[0], SV) and parse_tag(args[0].ty)[0] in self.reg.shapes \
                 and self.reg.shape_method(parse_tag(args[0].ty)[0], "__getattr__") is None:
@@ -1237,6 +1247,10 @@ class Calls(Interp):
         return SV(Val.none, "none")
 
     def bi_print(self, args, kwargs, node):
+        return SV(Val.none, "none")
+
+    def bi_exc_init(self, args, kwargs, node):
+        self.set_field(self.refof(args[0], node), "args", Val.tup(so.seq_of([self.to_term(a, node) for a in args[1:]])))
         return SV(Val.none, "none")
 
     def bi_partial(self, args, kwargs, node):
@@ -1999,6 +2013,10 @@ class Calls(Interp):
         if old_alloc is None:
             old_alloc = self.comp("$alloc", State())
         return BoolSV(self.refof(args[0], node) < old_alloc)
+
+    def sp_as_ref(self, args, kwargs, node):
+        """as_ref(n): the pseudo-object whose reference number is the integer n (used to key ghost tables by small integers)"""
+        return SV(Val.ref(self.as_int(args[0], node)), None)
 
     def sp_has_local(self, args, kwargs, node):
         """the verified function's local variable is bound at this point (static)"""
